@@ -179,6 +179,8 @@ func (r *recorder) RunDone(err error) { r.add(Event{Kind: "RunDone", Err: es(err
 
 type bodyEnv struct {
 	chunks []string // what chunks() returns (line-writer check)
+	reuse  bool     // say() writes from one reused buffer
+	sayBuf []byte
 	root   string
 	fail   map[string]bool
 	mu     sync.Mutex
@@ -223,9 +225,30 @@ func (b *bodyEnv) builtins() starlark.StringDict {
 		}),
 		"say": starlark.NewBuiltin("say", func(t *starlark.Thread, fn *starlark.Builtin, args starlark.Tuple, kw []starlark.Tuple) (starlark.Value, error) {
 			stdout, _ := util.Stdio(t)
-			if _, err := stdout.Write([]byte(str(args[0]))); err != nil {
+			chunk := []byte(str(args[0]))
+			if b.reuse {
+				// like io.Copy / os/exec: every write comes from the same buffer, which is
+				// overwritten by the next one
+				if b.sayBuf == nil {
+					b.sayBuf = make([]byte, 64)
+				}
+				n := copy(b.sayBuf, chunk)
+				chunk = b.sayBuf[:n]
+			}
+			if _, err := stdout.Write(chunk); err != nil {
 				return nil, err
 			}
+			if b.reuse {
+				for i := range b.sayBuf {
+					b.sayBuf[i] = '#' // the caller's buffer is its own again
+				}
+			}
+			return starlark.None, nil
+		}),
+		"sabotage": starlark.NewBuiltin("sabotage", func(t *starlark.Thread, fn *starlark.Builtin, args starlark.Tuple, kw []starlark.Tuple) (starlark.Value, error) {
+			// a fault the body itself can cause (a "clean" step, a full disk): the directory for
+			// temporary record files disappears, so the result of this target cannot be recorded
+			os.RemoveAll(filepath.Join(b.root, ".dawn", "build", "temp"))
 			return starlark.None, nil
 		}),
 		"chunks": starlark.NewBuiltin("chunks", func(t *starlark.Thread, fn *starlark.Builtin, args starlark.Tuple, kw []starlark.Tuple) (starlark.Value, error) {
@@ -389,4 +412,46 @@ func setString(m map[string]bool) string {
 	}
 	sort.Strings(ks)
 	return strings.Join(ks, ",")
+}
+
+// dryThenRealSameProject performs, on ONE Project value (as watch mode and library users do):
+// a dry run of target, Reload, and then Run(target, nil). It returns the result of the last run.
+func dryThenRealSameProject(root string, v Vars, target string) *buildResult {
+	res := &buildResult{Executed: map[string]bool{}}
+	rec := newRecorder()
+	be := &bodyEnv{root: root, fail: map[string]bool{}}
+	for i, f := range v.Fail {
+		if f {
+			be.fail[failName[i]] = true
+		}
+	}
+	proj, err := dawn.Load(root, &dawn.LoadOptions{Args: v.args(), Events: rec, Builtins: be.builtins()})
+	if err != nil {
+		res.LoadErr = err
+		return res
+	}
+	l, _ := label.Parse(target)
+	proj.Run(l, &dawn.RunOptions{DryRun: true})
+	if err := proj.Reload(); err != nil {
+		res.LoadErr = err
+		return res
+	}
+	rec.mu.Lock()
+	rec.ev = nil
+	rec.mu.Unlock()
+	be.mu.Lock()
+	be.steps, be.emits = nil, nil
+	be.mu.Unlock()
+	res.RunErr = proj.Run(l, nil)
+	res.Events = append([]Event{}, rec.ev...)
+	res.Steps = be.steps
+	res.After = readTree(root)
+	for _, s := range be.steps {
+		for _, t := range []string{tGen, tMid, tTop, tLeaf, tOther} {
+			if bodyName(t) == s {
+				res.Executed[t] = true
+			}
+		}
+	}
+	return res
 }
